@@ -32,7 +32,7 @@ rc, out = sh(f"git -C /repo apply {d}/patch.diff", cwd="/verif", env=os.environ)
 assert rc == 0, out
 try:
     for p in [pid] + others:
-        rc, out = sh(f"python3-vt check.py --property {p}", cwd="/verif", env=os.environ)
+        rc, out = sh(f"python3-vt check.py --property {p}", cwd="/verif", env=dict(os.environ, VERIF_EVIDENCE_DIR="/tmp/seed_evidence"))
         lines = [l for l in out.splitlines() if l.startswith(("VIOLATION", "OK", "UNDECIDED", "CHECKER", "KNOWN"))]
         results[p] = {"exit": rc, "lines": [l[:300] for l in lines[:8]]}
         print(p, "exit", rc, *[l[:200] for l in lines[:4]], sep="\n   ")
